@@ -95,7 +95,9 @@ int wrapped_main(int argc, char *argv[])
       /* argv[0] can be NULL, you can achieve this with exec(). */
       progname = "bbcbasic_to_text";
     }
-  assert(set_dialect(default_dialect_name, &dialect)); /* set the default */
+  const bool default_dialect_ok = set_dialect(default_dialect_name, &dialect); /* set the default */
+  assert(default_dialect_ok);
+  (void)default_dialect_ok;
   int opt;
   while ((opt=getopt_long(argc, argv, "+d:D:l:", opts, &longindex)) != -1) VERIF_LOOP(main_options)
     {
